@@ -3,8 +3,11 @@ package main
 import (
 	"bytes"
 	"fmt"
+	"github.com/la5nta/wl2k-go/fbb"
+	"io"
 	"runtime"
 	"strings"
+	"time"
 )
 
 // hintsFrom derives the external Message.ReadFrom verdicts for the model from what the real run showed:
@@ -26,6 +29,25 @@ func hintsFrom(r *sessRun) []int {
 		h = append(h, 2)
 	}
 	return h
+}
+
+// failingWriter lets the first `left` bytes through; every later Write fails (the link is gone).
+type failingWriter struct {
+	*memConn
+	left int
+}
+
+func (f *failingWriter) Write(p []byte) (int, error) {
+	if f.left <= 0 {
+		return 0, io.ErrClosedPipe
+	}
+	if len(p) > f.left {
+		n, _ := f.memConn.Write(p[:f.left])
+		f.left = 0
+		return n, io.ErrClosedPipe
+	}
+	f.left -= len(p)
+	return f.memConn.Write(p)
 }
 
 var boundaryNumbers = []string{"-9223372036854775808", "-1", "0", "1", "5", "6", "2147483647", "2147483648", "999999", "1000000", "100000000000000000000", "+3", "-0", "0x10", "1e3", " 7", "٣"}
@@ -266,6 +288,48 @@ func init() {
 				}
 				return append(f, 4, byte(-sum))
 			}
+			// blocks in which a proposal the library answers ON ITS OWN (a repeated MID, an FA/FB proposal) comes before,
+			// between or after ordinary FC proposals: the handler - also a batched one - is asked about the others only
+			for _, master := range []bool{false, true} {
+				for _, batched := range []bool{false, true} {
+					for _, lines := range [][]string{
+						{"FC EM DUPA 300 %d 0", "FC EM DUPA 300 %d 0", "FC EM OTHERB 300 %d 0"},
+						{"FA P LA1B N0CALL LA5NTA FAMID1 300", "FC EM OTHERB 300 %d 0"},
+						{"FB P LA1B N0CALL LA5NTA FBMID1 300", "FC EM X1 300 %d 0", "FC EM X1 300 %d 0", "FC EM X2 300 %d 0", "FC EM X1 300 %d 0"},
+						{"FC EM ONLY1 300 %d 0", "FA P A B C FAMID2 10"},
+						{"FC EM D1 300 %d 0", "FC EM D1 300 %d 0", "FC EM D1 300 %d 0", "FC EM D1 300 %d 0", "FC EM D1 300 %d 0"},
+					} {
+						var t []byte
+						if master {
+							t = append(t, "[WL2K-5.0-B2FWIHJM$]\r; N0CALL DE LA1B (JP20)\r"...)
+						} else {
+							t = append(t, "[WL2K-5.0-B2FWIHJM$]\rCMS via test >\r"...)
+						}
+						sum := 0
+						nFC := map[string]bool{}
+						for _, l := range lines {
+							line := l
+							if strings.Contains(l, "%d") {
+								line = fmt.Sprintf(l, len(validLz))
+								nFC[strings.Fields(line)[2]] = true
+							}
+							for _, x := range []byte(line) {
+								sum += int(x)
+							}
+							sum += 13
+							t = append(t, line+"\r"...)
+						}
+						t = append(t, fmt.Sprintf("F> %02X\r", byte(-sum))...)
+						for range nFC {
+							t = append(t, frame(validLz, 125)...)
+						}
+						t = append(t, "FF\r"...)
+						sp := newSpec("N0CALL", "LA1B", master)
+						sp.batched = batched
+						add(sp, t, "crafted-block", fmt.Sprintf("crafted block %q", lines))
+					}
+				}
+			}
 			for _, master := range []bool{false, true} {
 				for _, batched := range []bool{false, true} {
 					for gi := 0; gi < len(payloads); gi += 1 + c.Rng.Intn(2) {
@@ -317,6 +381,50 @@ func init() {
 			}
 			s := newSpec("N0CALL", "LA1B", c.Rng.Intn(2) == 0)
 			add(s, b, "random-bytes", "random bytes")
+		}
+		// 5. nothing of a session is left running after Exchange has returned: the link fails while an accepted
+		// outbound message is being written, with a status updater installed (reporter goroutines, tickers)
+		for i := 0; i < c.Budget(3, 20) && c.TimeLeft(); i++ {
+			sp := newSpec("N0CALL", "LA1B", false)
+			m := genMessage(c.Rng, "N0CALL", "LA1B", 200)
+			blob := make([]byte, 3000+c.Rng.Intn(6000))
+			c.Rng.Read(blob)
+			m.AddFile(fbb.NewFile("blob.bin", blob))
+			sp.outbox = []*outMsg{newOutMsg(m)}
+			tw := newTwin(sp)
+			sess := sp.newSession(tw)
+			rec := &statusRec{}
+			sess.SetStatusUpdater(rec)
+			a, b := newMemPipe(nil, nil)
+			b.Write([]byte("[WL2K-5.0-B2FWIHJM$]\rCMS via test >\rFS +\r"))
+			failAfter := 400 + c.Rng.Intn(2500)
+			fw := &failingWriter{memConn: a, left: failAfter}
+			done := make(chan error, 1)
+			go func() { _, err := sess.Exchange(fw); done <- err }()
+			var xerr error
+			select {
+			case xerr = <-done:
+			case <-time.After(10 * time.Second):
+				a.Kill()
+				c.Violate("C03:hang:link-failure-during-send", "Exchange did not return within 10 s after writes to the link started to fail", map[string]interface{}{"fail_after_bytes": failAfter})
+				continue
+			}
+			reportsAtReturn := len(rec.snapshot())
+			time.Sleep(700 * time.Millisecond)
+			var leaked []string
+			buf := make([]byte, 1<<20)
+			for _, g := range strings.Split(string(buf[:runtime.Stack(buf, true)]), "\n\n") {
+				if strings.Contains(g, "wl2k-go/fbb.(*Session)") {
+					leaked = append(leaked, strings.SplitN(g, "\n", 3)[1])
+				}
+			}
+			later := len(rec.snapshot()) - reportsAtReturn
+			rep := map[string]interface{}{"fail_after_bytes": failAfter, "exchange_error": fmt.Sprint(xerr), "goroutines_of_the_session": leaked, "status_reports_after_return": later}
+			if len(leaked) > 0 || later > 1 {
+				c.Violate("C03:left-running-after-return", fmt.Sprintf("700 ms after Exchange returned (%v) %d goroutine(s) of the session were still alive and the status updater had been called %d more time(s): every failed transfer leaves a ticking reporter behind", xerr, len(leaked), later), rep)
+			}
+			b.Close()
+			c.Res.Distribution["link-failure-during-send(oracle only)"]++
 		}
 		c.Compare(cases)
 	})
